@@ -33,7 +33,7 @@ pub mod props {
             ri is Ok ==> mid.remaining >= len0, // #value_dropped_only_if_nothing_consumed
             ri is Err ==> catchable(ri->Err_0.0), // #only_catchable_errors_become_none
             ri is Err && ri->Err_0.0 is Missing ==> pre.remaining == mid.remaining, // #missing_only_if_nothing_consumed
-            ri is Err ==> post == pre, // #state_restored
+            ri is Err ==> restored(pre, mid, post), // #state_restored
     {}
 //@@ end
 
@@ -55,7 +55,7 @@ pub mod props {
             exists|ri: Result<T, Error>, mid: State| #[trigger] fb.inner.rel(pre, ri, mid)
                 && (ri is Ok ==> r == ri && post == mid) // #present_and_valid_passes_through
                 && (ri is Err && !catchable(ri->Err_0.0) ==> r == ri) // #invalid_is_not_masked
-                && (ri is Err ==> post == pre), // #state_restored
+                && (ri is Err ==> exists|mid2: State| restored(pre, mid2, post)), // #state_restored
     {}
 //@@ end
 
@@ -85,7 +85,7 @@ pub mod props {
     /// "wrappers restore the pre-attempt state on caught failure"
     pub proof fn lemma_c05_swallow_restores<T>(pre: State, len0: usize, catch: bool, e: Error, mid: State, r: Result<Option<T>, Error>, post: State, len1: usize)
         requires opt_case(pre, len0, catch, Err::<T, Error>(e), mid, r, post, len1), r is Ok,
-        ensures post == pre && r == Ok::<Option<T>, Error>(None), // #state_is_pre_attempt_state
+        ensures restored(pre, mid, post) && r == Ok::<Option<T>, Error>(None), // #state_is_pre_attempt_state
     {}
 //@@ end
 
@@ -187,6 +187,7 @@ pub mod props {
             run_case(p, pre, ri, mid, r, post),
             inner_final(ri) is None,
             help_requested(p.info, mid),
+            no_comp(mid),
         ensures
             r is Err && r->Err_0 is Stdout, // #help_wins_over_value_and_error
     {
@@ -241,6 +242,21 @@ pub mod props {
             assert(t.avail(perm(j)));
         }
     }
+//@@ end
+
+//@@ lemma
+//@@ unit lemma.C20.inert_without_comp tags=C20
+    /// "the feature-gated bookkeeping threaded through every parser is observationally inert outside completion mode":
+    /// with `comp` None the autocomplete text's contracts collapse to the default configuration's
+    pub proof fn lemma_c20_inert(pre: State, mid: State, post: State)
+        requires no_comp(pre), no_comp(mid),
+        ensures
+            restored(pre, mid, post) ==> post == pre, // #swallowed_failure_restores_exactly
+            unchanged(pre, post) ==> post == pre, // #hooks_do_nothing
+            eqc(pre, post) && no_comp(post) ==> post == pre, // #modulo_comp_is_equality
+            step(pre, post) ==> no_comp(post), // #completion_mode_never_switches_on
+            forall|r: Result<u8, ParseFailure>| !completion_outcome(mid, r, post), // #no_completion_output
+    {}
 //@@ end
 
 //@@ lemma
